@@ -45,10 +45,14 @@ CHECKS = {
              "and cycle origins up to 2^62 are validated step by step by TLC against TraceTimers.tla (FiredIffBoundary, "
              "NextInFuture, NeverWhenOff, FireSetsIsr); Python and Rust sequences are also compared directly. Machine level: whole "
              "machines running with both timers are saved and restored into fresh machines at every script position (the C16 "
-             "campaign) and the firing cadence after the restore is compared with the uninterrupted run (snapshot_cadence).",
+             "campaign) and the firing cadence after the restore is compared with the uninterrupted run (snapshot_cadence). "
+             "Unbounded: ind/TimersInd.tla states the one-timer argument over mathematical integers and Apalache discharges it - "
+             "'the target is the least unconsumed period boundary' is inductive (base + step, for periods 1, 2, 7, 2048, 512000; "
+             "thorough 14 periods up to 2^27) for every cycle count, gap and restored target, and FiredIffBoundary / NextInFuture "
+             "follow from it in one step for a symbolic period P > 0; TLC ties the closed form used there to the loop of Timers.tla.",
         design_ref="DESIGN.md section 4 (C13)",
         note="Trusted: TLC, vh harness (timer.rs), drivers in checks/c13.py. Scheduler-level objects; machine-level ticking (WAIT/HALT) is exercised by the C12 machine traces, snapshot-restore at machine level by the cadence campaign.",
-        technique="TLA+ spec (Timers.tla) + TLC exhaustive/simulate + trace validation of recorded Python and Rust executions",
+        technique="TLA+ spec (Timers.tla) + TLC exhaustive/simulate + Apalache inductive invariant (unbounded cycles) + trace validation of recorded Python and Rust executions",
         engine="machine",
     ),
     "C18": dict(
